@@ -84,7 +84,7 @@ def search(payload):
     deep = payload.get("deep") or payload["tier"] == "thorough"
     preds = g.grid_true(payload["tier"]) + extra_kinds() + g.search_extra("true")
     n_values = 60 if deep else 25
-    fails, known_hits, n = [], [], 0
+    fails, known_hits, n, timeouts = [], [], 0, 0
     for seed in range(4 if deep else 3):
         for p in preds:
             random.seed(int(payload["seed"]) * 7919 + seed * 131 + len(repr(p)))
@@ -92,6 +92,10 @@ def search(payload):
                 vals, err = g.take(GENF(p), n_values)
             except (ValueError, TypeError):
                 continue
+            if err == "timeout":            # a stream that does not deliver is C11's business: do not wait for every one of them
+                timeouts += 1
+                if timeouts >= 3:
+                    break
             for i, v in enumerate(vals):
                 n += 1
                 k, r = call(p, v)
@@ -102,6 +106,8 @@ def search(payload):
                     else:
                         fails.append(rec)
                     break
+        if timeouts >= 3:
+            break
     # listed witnesses
     w12 = is_dict_of_p(("a", is_int_p), (is_str_p, is_str_p))
     random.seed(1)
